@@ -353,9 +353,12 @@ def sequential_job(job):
     # pattern routing: a subscription yields exactly the messages whose channel matches its pattern in the sense of
     # fnmatch (the documented "Unix shell-style patterns": *, ?, [seq], [!seq]); the others stay queued
     import fnmatch as _fn
-    chans = ["jobs.1.cfg", "jobs.2.cfg", "jobs.3.cfg", "jobs.1.status", "jobs.12.cfg", "a", "ab", "a.b", "A", "x[1]", "data.s1", "data.c2"]
+    chans = ["jobs.1.cfg", "jobs.2.cfg", "jobs.3.cfg", "jobs.1.status", "jobs.12.cfg", "a", "ab", "a.b", "A", "x[1]", "data.s1", "data.c2",
+             # names with characters that mean something in OTHER pattern languages (NATS, regular expressions, SQL): plain here
+             "out.List<float>", "out.List<float64>", "out.List<float>.shape", "a>", "a>b", "t.%", "t.x", "q+", "q+1", "d.$", "d.$x", "p|q"]
     pats = ["jobs.[12].cfg", "jobs.[12].*", "jobs.[!1].cfg", "jobs.?.cfg", "jobs.??.cfg", "*.[sc]*", "[a-b]*", "a?", "?", "jobs.*.cfg", "jobs.1.cfg",
-            "x[[]1]", "*", "data.[!s]?", "[!j]*", "jobs.[0-9].status", "nomatch", "*.cfg", "j*[g]"]
+            "x[[]1]", "*", "data.[!s]?", "[!j]*", "jobs.[0-9].status", "nomatch", "*.cfg", "j*[g]",
+            "out.List<float>", "a>", "jobs.>", "out.>", "t.%", "q+", "d.$", "p|q", "out.List<*>", ">", "a.b.>"]
     for pat in pats:
         tr = mod.InMemorySemantivaTransport()
         tr.connect()
